@@ -112,13 +112,14 @@ class SourceGen:
                 out.append(f'for {r.choice(["v", "item", "e1"])}{idx} in {self.expr(1)}:')
                 out.extend(self.block(depth + 1, True, in_func, r.randint(0, 3)))
                 out.append('endfor')
-            elif not in_func and depth == 0 and c < 0.38:
+            elif not in_func and c < 0.38 and (depth == 0 or (depth <= 3 and r.random() < 0.25)):
+                # (a function may also be defined inside open if / while / for blocks of the top level)
                 args = ', '.join(r.sample(['a', 'b', 'c1', 'rest'], r.randint(0, 3)))
                 if args and r.random() < 0.25:
                     args += '...'
                 pre = 'async ' if r.random() < 0.15 else ''
                 out.append(f'{pre}function {r.choice(["fnA", "fnB", "doIt", "helper"])}({args}):')
-                out.extend(self.block(1, False, True, r.randint(0, 4)))
+                out.extend(self.block(depth + 1, False, True, r.randint(0, 4)))
                 out.append('endfunction')
             elif in_loop and c < 0.46:
                 out.append(r.choice(['break', 'continue']))
